@@ -65,7 +65,7 @@ Proof.
     + apply liftA_wf. intros spec0 Hs0. apply liftA_wf. intros spec_req Hsr.
       match goal with |- context [get_dist_stack_src ?a u spec_req (Some maxdg)] => destruct (get_dist_stack_src a u spec_req (Some maxdg)) as [md|] end;
         [|apply log_wf; apply log_wf; exact Hwf].
-      apply liftA_wf. intros reason Hreason. apply liftA_wf. intros [g1 nodes] Hadd.
+      apply liftA_wf. intros reason0 Hreason0. apply liftA_wf. intros reason Hreason. apply liftA_wf. intros [g1 nodes] Hadd.
       assert (Hwf1 : wf g1) by (eapply add_dist_wf; [|exact Hadd]; apply log_wf; apply log_wf; exact Hwf).
       apply fold_sres_wf; [|exact Hwf1].
       intros acc rn Hacc. destruct acc as [ga|ga nm sp|er]; [|exact Hacc|exact I]. apply IH. exact Hacc.
@@ -105,10 +105,10 @@ Qed.
 Definition cres_wf (r : cres) : Prop :=
   match r with COk g _ => wf g | CNoCand g _ _ => wf g | CFatal _ => True end.
 
-Theorem perform_compile_stack_ob_wf fuel e u inputs cons rc md ob_all ob :
-  cres_wf (perform_compile_stack_ob fuel e u inputs cons rc md ob_all ob).
+Theorem perform_compile_stack_x_wf fuel e u inputs cons rc md ob_all ob extras :
+  cres_wf (perform_compile_stack_x fuel e u inputs cons rc md ob_all ob extras).
 Proof.
-  unfold perform_compile_stack_ob.
+  unfold perform_compile_stack_x.
   destruct (match cons with Some cs => collect_pins cs true [] | None => Rok (true, []) end) as [[all_pinned pins]|er]; [|exact I].
   destruct (match cons with
             | Some cs => if all_pinned then Rok (empty_graph, []) else add_containers e empty_graph cs []
@@ -135,6 +135,10 @@ Proof.
     eapply add_containers_wf; [exact Hr|exact E3].
   - exact I.
 Qed.
+
+Theorem perform_compile_stack_ob_wf fuel e u inputs cons rc md ob_all ob :
+  cres_wf (perform_compile_stack_ob fuel e u inputs cons rc md ob_all ob).
+Proof. apply perform_compile_stack_x_wf. Qed.
 
 Theorem perform_compile_stack_wf fuel e u inputs cons rc md :
   cres_wf (perform_compile_stack fuel e u inputs cons rc md).
